@@ -16,7 +16,7 @@ func init() {
 		Rule: "one case = (packet of the C01 space, source: built through the API or decoded from its wire image, side that is mutated, one mutation); non-trivial = the packet has at least one of payload / CSRC / extension element",
 		Assumptions: []string{
 			"mutations: overwrite every payload byte; overwrite every CSRC entry; overwrite every byte of one extension value through the slice GetExtension returns; SetExtension of an existing id; SetExtension of a new id; DelExtension of the first / last id; overwrite of the decoded-from buffer; append within capacity to payload and CSRC; SetExtension of different new ids on both sides; each also from the start state in which every extension was deleted before cloning (empty list with spare capacity)",
-			"packet space: C01 reduced space (quick) / C01 quick space (thorough)",
+			"packet space: C01 quick space (quick) / C01 thorough space (thorough), plus the many-element / large packets of C01",
 		},
 		Scenarios: []mc.Scenario{
 			{Name: "clone-then-mutate", Tiers: "qt", ShardDepth: 4, Run: c20Run},
@@ -38,9 +38,9 @@ type c20Snap struct {
 }
 
 func c20Run(c *mc.Ctx) {
-	level := spaceReduced
+	level := spaceQuick
 	if c.Thorough() {
-		level = spaceQuick
+		level = spaceThorough
 	}
 	fromWire := c.Bool()
 	mutateClone := c.Bool()
